@@ -212,6 +212,55 @@ DIRECTED = [
 ]
 
 
+# the "malformed path" stream: paths and patterns with empty clauses (a trailing '/', a doubled '/'), which the server accepts
+ZSET = ["x/", "a/", "a//b", "a/b/", "x", "a", "a/b", "x//", "b/"]
+ZPAT = ["x/", "a/", "*/", "a*/", "a//b", "*//b", "/*/*/x/", "x", "a*", "a/*/", "*/*", "/H/*/a/", "x//"]
+
+
+def zcanon(p):
+    # the server's entry key for a subscription string (AdjustStringPrefix)
+    return p[1:] if p.startswith("/") else "*/*/" + p
+
+
+def malformed_case(rng):
+    # one entry key = one spelling per session (two SUBSCRIBE: parameter names for one entry is a client error the model
+    # does not represent), as in the other streams
+    ops = ["a", "a"] + (["a"] if rng.random() < 0.4 else [])
+    n = len(ops)
+    subs = {k: [] for k in range(n)}
+
+    def usable(k, p):
+        return (p in subs[k]) or all(zcanon(q) != zcanon(p) for q in subs[k])
+
+    for _ in range(rng.choice([5, 8, 12, 16])):
+        k = rng.randrange(n)
+        r = rng.random()
+        if r < 0.30:
+            items = grouped_items(["%s=%d" % (rng.choice(ZSET), rng.randrange(0, 10)) for _ in range(rng.choice([1, 1, 2, 3]))])
+            ops.append("s:%d:0:%s" % (k, "&".join(items)))
+        elif r < 0.40:
+            ops.append("r:%d:0:%s" % (k, rng.choice(ZPAT + ZSET)))
+        elif r < 0.72:
+            ps = []
+            for _ in range(rng.choice([1, 1, 2])):
+                b = rng.choice(subs[k]) if (subs[k] and rng.random() < 0.5) else rng.choice(ZPAT)
+                if usable(k, b) and all(x.split("@")[0] != b for x in ps):
+                    ps.append(with_filter(rng, b, 0.2))
+                    if b not in subs[k]:
+                        subs[k].append(b)
+            if ps:
+                ops.append("p:%d:0:%s" % (k, "&".join(ps)))
+        elif r < 0.90:
+            p = rng.choice(subs[k]) if (subs[k] and rng.random() < 0.8) else rng.choice(ZPAT)
+            if usable(k, p):
+                if p in subs[k]:
+                    subs[k].remove(p)
+                ops.append("u:%d:%s" % (k, p))
+        else:
+            ops.append("g:%d:%s" % (k, rng.choice(ZPAT)))
+    return ";".join(ops)
+
+
 class CHECK(vlib.Check):
     prop = "C04"
     prop_file = "Properties_C04.v"
@@ -243,8 +292,11 @@ class CHECK(vlib.Check):
             "subscribers; directed boundary scripts); after EVERY op: per-client PR_RESULT_DATAITEMS streams, the true tree with every "
             "node's subscriber table, every session's subscription entries and max-items, and every client's mirror are compared with "
             "the extracted model (stream multimax: several subscribers with max-items changes, the per-op NET EFFECT of each client's "
-            "Messages instead of the Messages, because their split points depend on the unmodelled pool iteration order); the harness's own oracle (mirror == foreign nodes accepted by PathMatcher::MatchesPath over the real "
-            "tree) is evaluated at every quiescent point.  Non-trivial = the history contains a subscription and a later data change, "
+            "Messages instead of the Messages, because their split points depend on the unmodelled pool iteration order; stream malformed: "
+            "paths and subscription strings with empty clauses such as a trailing '/', everything compared except the mirror statement); "
+            "the harness's own oracles are evaluated after every op: mirror == foreign nodes accepted by PathMatcher::MatchesPath over the "
+            "real tree, and refcount == every node's subscriber table holds for every attached session exactly "
+            "NodePathMatcher::GetMatchCount of its entries and nothing for departed sessions.  Non-trivial = the history contains a subscription and a later data change, "
             "removal or departure by another session.")
 
     def gen_cases(self, rng, tier):
@@ -265,6 +317,10 @@ class CHECK(vlib.Check):
         for i in range(n // 4):
             g = Gen(rng, multi_subscribers=True, allow_quiet=False, allow_max=True)
             out.append(("multimax", "x|" + g.case(rng.choice([8, 12, 20]), rng.choice([2, 3, 4]))))
+        # malformed-but-accepted paths (empty clauses): model/impl correspondence plus the refcount oracle
+        out.append(("malformed", "z|a;a;s:1:0:x/=1;p:0:0:x/;p:0:0:x/;u:0:x/;s:1:0:x/=2;d:0"))
+        for i in range(n // 5):
+            out.append(("malformed", "z|" + malformed_case(rng)))
         return out
 
     def nontrivial(self, case):
